@@ -67,6 +67,16 @@ def interrupted(ctx):
                                  failing, rng.choice(["Exception", "BaseException"]), detsched.random_chooser(rng, 0.2), "interrupt",
                                  interrupt_at=("join", k))
         ctx.case(("c07-interrupt", tuple(nodes), tuple(edges), k))
+    # independent calls that ALL fail, interrupt after k starts: the error limit is exceeded around the time the coordinator queues the
+    # shutdown sentinels - they must still reach every worker
+    for workers in ((2, 3) if camp.usable else ()):
+        for max_errors in (0, 1):
+            for k in (1, 2, 3):
+                for si in range(ctx.n(2, 6)):
+                    nodes = list(range(6))
+                    run_, outcome = camp.one(nodes, [], workers, max_errors, rng.choice(["default", "random", "cheap"]), nodes, "Exception",
+                                             detsched.random_chooser(rng, rng.choice([0.1, 0.4])), "interrupt+failures", interrupt_at=("join", k))
+                    ctx.case(("c07-interrupt-all-failing", workers, max_errors, k, si))
     engine_corr.file_findings(ctx, camp, {"C07"})
 
 
